@@ -14,7 +14,7 @@ use std::sync::{Mutex, OnceLock};
 
 pub struct C15;
 
-pub const PROGRAMS: [(&str, &str); 15] = [
+pub const PROGRAMS: [(&str, &str); 18] = [
     ("counter", "fn cnt(p) {\n  self + p\n}\nfn dsp(x) {\n  cnt(x) + cnt(1.0)\n}\n"),
     ("closures", "fn mk(n) {\n  |y| y + n\n}\nfn dsp(x) {\n  let a = mk(1.0)\n  let b = |q| q * 2.0\n  let c = | | 3.0\n  a(x) + b(x) + c()\n}\n"),
     ("enum", "type Dir = Up | Down | Left(float)\nfn f(d: Dir) {\n  match d {\n    Up => 1.0,\n    Down => 2.0,\n    Left(v) => v\n  }\n}\nfn dsp(x) {\n  f(Up) + f(Down) + f(Left(x))\n}\n"),
@@ -30,6 +30,11 @@ pub const PROGRAMS: [(&str, &str); 15] = [
     ("alias_in_module_left", "mod left {\n  pub type alias Pair = (float, float)\n  pub fn mk(x: float) -> Pair {\n    (x, x + 1.0)\n  }\n}\nfn dsp(x) {\n  let (a, b) = left::mk(x)\n  a + b\n}\n"),
     ("alias_in_module_right", "mod right {\n  pub type alias Pair = (float, float, float)\n  pub fn total(p: Pair) -> float {\n    p.0 + p.1 + p.2\n  }\n}\nfn dsp(x) {\n  right::total((x, 2.0, 3.0))\n}\n"),
     ("enum_same_names_other_order", "type Dir = Left(float) | Down | Up\nfn f(d: Dir) {\n  match d {\n    Up => 10.0,\n    Down => 20.0,\n    Left(v) => v * 2.0\n  }\n}\nfn dsp(x) {\n  f(Up) + f(Down) + f(Left(x))\n}\n"),
+    // a value of a recursive sum type bound to a local (released at the end of its scope)
+    ("rec_list_local", "type rec List = Nil | Cons(float, List)\nfn sum(l: List) -> float {\n  match l {\n    Nil => 0.0,\n    Cons(h, t) => h + sum(t)\n  }\n}\nfn dsp(x: float) -> float {\n  let mylist = Cons(x, Cons(2.0, Cons(3.0, Nil)))\n  let other = Cons(1.0, Nil)\n  sum(mylist) + sum(other)\n}\n"),
+    // destructuring patterns inside quoted code (the staging pass names its temporaries); one binds a function
+    ("staged_record_pattern", "#stage(macro)\nfn mk() {\n  `{\n    let {f = g, a = b} = {f = |x| x + 1.0, a = 1.0}\n    g(b)\n  }\n}\n#stage(main)\nfn dsp(x) {\n  mk!() + x\n}\n"),
+    ("staged_nested_tuple_pattern", "#stage(macro)\nfn mk(e) {\n  `{\n    let ((p, q), (r, s)) = (($e, |v| v * 2.0), (3.0, |v| v + 4.0))\n    q(p) + s(r)\n  }\n}\n#stage(main)\nfn dsp(x) {\n  mk!(`x) + mk!(`1.0)\n}\n"),
     ("tuples_if", "fn sw(t:(float,float)) {\n  (t.1, t.0)\n}\nfn dsp(x) {\n  let t = if (x) { (1.0, x) } else { (x, 2.0) }\n  let (p, q) = sw(t)\n  (p, q, now)\n}\n"),
 ];
 
@@ -77,15 +82,22 @@ pub fn observe(pi: usize) -> Obs {
         Ok(Err(e)) => (fnv(crate::run::errs_to_strings(&e).join("|").as_bytes()), "rejected".into()),
         Err(m) => (fnv(m.as_bytes()), format!("panic {m}")),
     };
-    let mir = match catch(|| c.emit_mir(src)) {
-        Ok(Ok(m)) => fnv(format!("{m}").as_bytes()),
-        Ok(Err(_)) => 1,
-        Err(_) => 2,
-    };
+    // the MIR text embeds interner ids and is not one of the artefacts the property names: not produced
+    let mir = 0;
     let inp = |t: usize| vec![stream(0, t)];
     let out_vm = hash_out(&full_run(Backend::Vm, src, true, 6, &inp, false));
     let out_wasm = hash_out(&full_run(Backend::Wasm, src, true, 6, &inp, false));
     Obs { bytecode, wasm, mir, layout, out_vm, out_wasm, summary: format!("{bsum}, {wsum}") }
+}
+/// an earlier element of a history: the program is compiled by both compile entry points (not run)
+pub fn compile_only(pi: usize) {
+    let src = PROGRAMS[pi].1;
+    let mut ctx = ExecContext::new([].into_iter(), Some("/verif-input.mmm".into()), Config::default());
+    ctx.add_system_plugin(mimium_scheduler::get_default_scheduler_plugin());
+    ctx.prepare_compiler();
+    let c = ctx.get_compiler().unwrap();
+    let _ = catch(|| c.emit_bytecode(src).map(|_| ()));
+    let _ = catch(|| c.emit_wasm(src).map(|_| ()));
 }
 pub fn obs_line(o: &Obs) -> String {
     // the MIR text embeds interner ids and is not one of the artefacts the property names: not compared
@@ -164,7 +176,7 @@ impl Prop for C15 {
             .spawn(move || {
                 quiet_panics();
                 for &pi in &h2[..h2.len() - 1] {
-                    let _ = observe(pi);
+                    compile_only(pi);
                 }
                 let o = observe(last);
                 // compile the observed program once more: repeated compilation in one process
